@@ -222,7 +222,9 @@ def _raised_inside_numpy(e):
     while tb.tb_next is not None:
         tb = tb.tb_next
     fn = tb.tb_frame.f_code.co_filename
-    return '/numpy/' in fn or fn.startswith('<__array_function__')
+    # pwa/sym.py is a thin wrapper that applies the numpy operation to the array of formal taps: a numpy complaint
+    # raised from there (bad axes, zero slice step, shape mismatch) is what the real array operation raises too
+    return '/numpy/' in fn or fn.startswith('<__array_function__') or fn.endswith('/pwa/sym.py')
 
 
 class Transparent:
@@ -746,6 +748,10 @@ class Libs:
             raise PyExc('IndexError', str(e), loc=self.interp.loc())
         except TypeError as e:
             raise PyExc('TypeError', str(e), loc=self.interp.loc())
+        except ValueError as e:
+            if isinstance(obj, (Sym, np.ndarray, list, tuple, str, range)):
+                raise PyExc('ValueError', str(e), loc=self.interp.loc())      # e.g. slice step cannot be zero
+            raise
 
     def setitem(self, obj, idx, val):
         if isinstance(obj, DataT):
